@@ -248,11 +248,11 @@ Proof.
     apply Qle_bool_iff in E. exfalso. exact (Qlt_not_le _ _ H E).
 Qed.
 
-Theorem doubled_exact fs n k : (0 < fs)%Q -> (0 < n)%nat ->
+Theorem mask_orig_exact fs n k : (0 < fs)%Q -> (0 < n)%nat ->
   (eps6 < fs / inject_Z (2 * Z.of_nat n))%Q ->
-  (doubled fs n k = true <-> k <> 0 /\ 2 * k < Z.of_nat n).
+  (mask_orig fs n k = true <-> k <> 0 /\ 2 * k < Z.of_nat n).
 Proof.
-  intros Hfs Hn Heps. unfold doubled. rewrite andb_true_iff, negb_true_iff, Z.eqb_neq, Qltb_iff.
+  intros Hfs Hn Heps. unfold mask_orig. rewrite andb_true_iff, negb_true_iff, Z.eqb_neq, Qltb_iff.
   rewrite freq_eq.
   pose proof (ustep_pos fs n Hfs Hn) as Hu.
   pose proof (injn_pos n Hn) as HN.
@@ -277,25 +277,35 @@ Proof.
     unfold Qdiv in *. change (/ (2 # 1))%Q with (1 # 2)%Q in *. lra.
 Qed.
 
-Theorem doubled_onesided fs n k : (0 < fs)%Q -> (0 < n)%nat ->
-  (eps6 < fs / inject_Z (2 * Z.of_nat n))%Q -> In k (zrange 0 ((n + 1) / 2)) ->
-  doubled fs n k = negb (k =? 0).
+(* the repaired mask: a row is doubled iff k > 0 *)
+Theorem doubled_iff k : doubled k = true <-> 0 < k.
+Proof. unfold doubled. apply Z.ltb_lt. Qed.
+(* every row of the one-sided output lies strictly below Nyquist (fftfreq puts Nyquist, even n, at the negative end) *)
+Theorem onesided_rows_below_nyquist n k : In k (zrange 0 ((n + 1) / 2)) -> 0 <= k /\ 2 * k < Z.of_nat n.
+Proof. intros Hk. apply zrange_In in Hk. lia. Qed.
+Theorem doubled_onesided n k : In k (zrange 0 ((n + 1) / 2)) -> doubled k = negb (k =? 0).
 Proof.
-  intros Hfs Hn Heps Hk. apply zrange_In in Hk.
-  pose proof (doubled_exact fs n k Hfs Hn Heps) as HD.
-  destruct (k =? 0) eqn:E; simpl.
-  - destruct (doubled fs n k); [|reflexivity]. destruct HD as [HD _]. specialize (HD eq_refl). lia.
-  - apply HD. lia.
+  intros Hk. apply zrange_In in Hk. unfold doubled.
+  destruct (Z.eqb_spec k 0) as [E|E]; cbn [negb]; [apply Z.ltb_ge|apply Z.ltb_lt]; lia.
 Qed.
-
-Theorem double_rows_onesided {V} (dbl : V -> V) (d : V) fs n (X : list V) : (0 < fs)%Q -> (0 < n)%nat ->
-  (eps6 < fs / inject_Z (2 * Z.of_nat n))%Q -> length X = n ->
-  double_rows dbl fs n (nonneg (fft_table n X))
+Theorem double_rows_onesided {V} (dbl : V -> V) (d : V) n (X : list V) : length X = n ->
+  double_rows dbl (nonneg (fft_table n X))
   = map (fun k => (k, if k =? 0 then nth (Z.to_nat k) X d else dbl (nth (Z.to_nat k) X d))) (zrange 0 ((n + 1) / 2)).
 Proof.
-  intros Hfs Hn Heps HX. rewrite (nonneg_table_spec d) by exact HX.
+  intros HX. rewrite (nonneg_table_spec d) by exact HX.
   unfold double_rows. rewrite map_map. apply map_ext_in. intros k Hk. cbn [fst snd].
-  rewrite (doubled_onesided fs n k Hfs Hn Heps Hk). destruct (k =? 0); reflexivity.
+  rewrite (doubled_onesided n k Hk). destruct (k =? 0); reflexivity.
+Qed.
+(* history: in its regime the original mask agrees with the repaired one on the one-sided rows *)
+Theorem mask_orig_agrees fs n k : (0 < fs)%Q -> (0 < n)%nat ->
+  (eps6 < fs / inject_Z (2 * Z.of_nat n))%Q -> In k (zrange 0 ((n + 1) / 2)) ->
+  mask_orig fs n k = doubled k.
+Proof.
+  intros Hfs Hn Heps Hk. pose proof (mask_orig_exact fs n k Hfs Hn Heps) as HD.
+  pose proof (doubled_iff k) as HI. apply zrange_In in Hk.
+  destruct (mask_orig fs n k), (doubled k); try reflexivity.
+  - destruct HD as [HD _]. specialize (HD eq_refl). destruct HI as [_ HI]. rewrite HI in *; [discriminate|lia].
+  - destruct HI as [HI _]. specialize (HI eq_refl). destruct HD as [_ HD]. rewrite HD in *; [discriminate|lia].
 Qed.
 
 (* crop / zero-pad *)
@@ -476,11 +486,11 @@ Proof.
   split; [reflexivity|]. split; [discriminate|]. split; [reflexivity|]. change (0 < min_len (x :: r))%nat. lia.
 Qed.
 
-(* Outside the regime fs/(2n) > 1e-6 the mask is NOT exact: at fs = 2^-20 Hz, n = 3, the strictly positive,
+(* Outside the regime fs/(2n) > 1e-6 the ORIGINAL mask was not exact: at fs = 2^-20 Hz, n = 3, the strictly positive,
    non-Nyquist bin k = 1 is not doubled (the guard fs/2 - 1e-6 is negative).  Witness replayed on /repo:
-   compute_power_spectral_density(Tsd(t=[0, 2^20, 2^21], d=[1,2,4]), fs=2**-20) leaves row 1 undoubled. *)
-Theorem doubled_low_rate_refuted :
-  exists fs n k, (0 < fs)%Q /\ (0 < n)%nat /\ 0 < k /\ 2 * k < Z.of_nat n /\ doubled fs n k = false.
+   compute_power_spectral_density(Tsd(t=[0, 2^20, 2^21], d=[1,2,4]), fs=2**-20) left row 1 undoubled before the repair. *)
+Theorem mask_orig_low_rate_refuted :
+  exists fs n k, (0 < fs)%Q /\ (0 < n)%nat /\ 0 < k /\ 2 * k < Z.of_nat n /\ mask_orig fs n k = false.
 Proof.
   exists (1 # 1048576)%Q, 3%nat, 1. split; [reflexivity|]. split; [lia|]. split; [lia|]. split; [simpl; lia|].
   vm_compute. reflexivity.
@@ -488,7 +498,9 @@ Qed.
 
 Print Assumptions fft_table_spec.
 Print Assumptions nonneg_table_spec.
-Print Assumptions doubled_exact.
+Print Assumptions mask_orig_exact.
+Print Assumptions mask_orig_agrees.
+Print Assumptions doubled_onesided.
 Print Assumptions double_rows_onesided.
 Print Assumptions epoch_rows_spec.
 Print Assumptions overlap_split_spec.
@@ -496,4 +508,4 @@ Print Assumptions overlap_split_inside.
 Print Assumptions overlap_split_bound.
 Print Assumptions seg_values_spec.
 Print Assumptions mean_plan_spec.
-Print Assumptions doubled_low_rate_refuted.
+Print Assumptions mask_orig_low_rate_refuted.
